@@ -90,8 +90,12 @@ void VariableManager::process_variable_assignment(const ASTNode *node) {
                     temp.str_value = string_value;
                     // value フィールドに文字列のコピーのポインタを保存（generic
                     // 型で使用される）
-                    temp.value = reinterpret_cast<int64_t>(
-                        strdup(temp.str_value.c_str()));
+                    // （空文字列にはコピーを作らない:
+                    // 生バッファと区別するため）
+                    temp.value = temp.str_value.empty()
+                                     ? 0
+                                     : reinterpret_cast<int64_t>(strdup(
+                                           temp.str_value.c_str()));
                 } else {
                     temp.value = numeric_value;
                 }
